@@ -676,6 +676,8 @@ _CAP_SEQS = [
     ((4, 4), ("xmin",), {"max_separation": 0}, True),
     ((4, 4), ("ymax",), {"max_separation": 0}, True),
     ((4, 4), ("xmax", "ymin"), {"max_unfinished": 0}, True),
+    ((4, 4), ("xmin", "ymin"), {}, True),                 # default max_unfinished=1: stops with one direction unfinished
+    ((5, 5), ("ymax", "xmax", "ymin"), {"max_unfinished": 1, "max_separation": 2}, False),
     ((4, 4), ("xmin", "ymin", "xmax", "ymax"), {"max_unfinished": 0}, True),
     ((4, 4), "rtlb", {"max_unfinished": 0, "max_separation": 0}, False),
     ((5, 3), None, {}, False),
@@ -691,7 +693,7 @@ def _cap_driver_params():
         for opt in ("mps", "mps-nocanon", "mps-early", "full-bond", "direct", "zipup", "projector2d", "projector1d", "local-early",
                     "local-late", "dm", "superorthogonal", "l2bp"):
             for chi in (3, 2):
-                q = quick and chi == 3 and opt in ("mps", "full-bond", "projector2d") and k in (0, 3, 4)
+                q = quick and chi == 3 and opt in ("mps", "full-bond", "projector2d") and k in (0, 3, 4, 5)
                 if chi == 2 and opt not in ("mps", "full-bond", "projector2d"):
                     continue
                 if opt == "zipup" and extra.get("max_separation") == 0 and len(seq) == 4:
@@ -1139,11 +1141,13 @@ def _cc_params():
             for opt in ("default", "late", "basic", "tg2", "span-all", "nomat", "gauges"):
                 out.append({"geom": geom, "chi": chi, "opt": opt, "_tiers": _T})
     for geom in ("ring4", "chord4", "full4", "ring4open", "tree5"):
-        for chi in (2, 4, None):
+        for chi in (2, 3, 4, None):
             for opt in CC_OPTS:
-                if chi != 2 and opt not in ("default", "late", "basic", "gauges"):
+                if chi not in (2, 3) and opt not in ("default", "late", "basic", "gauges"):
                     continue        # with chi >= every product bond nothing is ever compressed: the option is dead
-                q = (geom in ("ring4", "chord4") and opt in ("default", "late", "basic", "tg0") and chi == 2) or \
+                if chi == 3 and opt not in ("default", "late", "basic", "tg0", "span-all", "gauges"):
+                    continue
+                q = (geom in ("ring4", "chord4") and opt in ("default", "late", "basic", "tg0") and chi in (2, 3)) or \
                     (geom == "ring4open" and opt == "default" and chi in (4, None))
                 out.append({"geom": geom, "chi": chi, "opt": opt, "_tiers": _Q if q else _T})
     return out
